@@ -53,9 +53,63 @@ pub fn main(args: &Args, ext: &Externs) -> i32 {
         }
         bad
     });
+    // field types that are nameable but neither Send nor Sync, or only one of the two (no Clone, no
+    // serde: the bare fragment selection only) - in the first variant / added later, removed later
+    let kinds = ["Both", "SendOnly", "SendOnlyWrapped", "SyncOnly", "Neither", "NeitherWrapped", "RawPtr"];
+    let extra = crate::parallel(kinds.len() * 2, |i| {
+        use truc::record::{definition::builder::native::NativeRecordDefinitionBuilder, type_resolver::HostTypeResolver};
+        let kind = kinds[i / 2];
+        let later = i % 2 == 1;
+        let mut b = NativeRecordDefinitionBuilder::new(HostTypeResolver);
+        macro_rules! add_kind {
+            ($b:expr, $name:expr) => {
+                match kind {
+                    "Both" => $b.add_datum::<usertypes::Both, _>($name),
+                    "SendOnly" => $b.add_datum::<usertypes::SendOnly, _>($name),
+                    "SendOnlyWrapped" => $b.add_datum::<usertypes::SendOnlyWrapped, _>($name),
+                    "SyncOnly" => $b.add_datum::<usertypes::SyncOnly, _>($name),
+                    "Neither" => $b.add_datum::<usertypes::Neither, _>($name),
+                    "NeitherWrapped" => $b.add_datum::<usertypes::NeitherWrapped, _>($name),
+                    _ => $b.add_datum::<usertypes::RawPtr, _>($name),
+                }
+                .unwrap()
+            };
+        }
+        b.add_datum::<u32, _>("plain").unwrap();
+        let id = if later {
+            b.close_record_variant();
+            add_kind!(b, "subject")
+        } else {
+            add_kind!(b, "subject")
+        };
+        b.close_record_variant();
+        b.remove_datum(id).unwrap();
+        b.add_datum::<String, _>("text").unwrap();
+        b.close_record_variant();
+        let def = b.build();
+        let code = truc::generator::generate(&def, &truc::generator::config::GeneratorConfig::default());
+        let path = dir.join(format!("auto{}.rs", i));
+        std::fs::write(&path, format!("{}pub mod m {{\n{}\n}}\n", PRELUDE, code)).unwrap();
+        let r = rustc(ext, &path, &["truc_runtime", "static_assertions", "usertypes"], None);
+        let _ = std::fs::remove_file(&path);
+        if r.ok {
+            None
+        } else {
+            Some((format!("usertypes::{} {}", kind, if later { "added in a later variant" } else { "in the first variant" }), r.stderr.lines().filter(|l| l.starts_with("error")).take(2).collect::<Vec<_>>().join(" | ")))
+        }
+    });
     let mut report = Report::new("probes", args, "model_checking");
     report.start = t0;
     report.merge_tag = Some("b".to_owned());
+    if args.replay.is_none() {
+        for (what, msg) in extra.iter().flatten() {
+            report.add(Violation::new(
+                "C13/generated-module-rejected/restricted-auto-trait-field",
+                format!("a definition with a field of type {} generates a module that does not compile: {}", what, msg),
+                json!({"space": "c13-probe", "definition": what, "stage": "compile/default"}),
+            ));
+        }
+    }
     let mut samples = vec![];
     for (spec, bad) in family.iter().zip(results.iter()) {
         for (k, msg) in bad {
@@ -78,12 +132,12 @@ pub fn main(args: &Args, ext: &Externs) -> i32 {
         return if report.violations.is_empty() { println!("REPLAY-OK property=C13"); 0 } else { 1 };
     }
     report
-        .cov("states", family.len() as u64)
-        .cov("transitions", (family.len() * 4) as u64)
-        .cov("traces_validated_against_impl", (family.len() * 4) as u64)
+        .cov("states", (family.len() + extra.len()) as u64)
+        .cov("transitions", (family.len() * 4 + extra.len()) as u64)
+        .cov("traces_validated_against_impl", (family.len() * 4 + extra.len()) as u64)
         .cov("samples", samples)
         .cov("exhaustive", true)
-        .cov("part_b", json!({"definitions_type_checked": family.len(), "fragment_selections": ["default", "clone", "serde", "clone+serde"], "modules_type_checked": family.len() * 4}));
+        .cov("part_b", json!({"definitions_type_checked": family.len(), "fragment_selections": ["default", "clone", "serde", "clone+serde"], "modules_type_checked": family.len() * 4, "modules_with_restricted_auto_trait_fields": extra.len()}));
     report.assume("part (b): field names f<i>, field types from the instrumented menu (nameable, implement Clone and serde): the statement's preconditions hold by construction; rustc --emit=metadata is the oracle");
     report.finish()
 }
